@@ -20,6 +20,7 @@ package main
 
 import (
 	"fmt"
+	"os"
 	"path/filepath"
 	"sort"
 	"strings"
@@ -526,6 +527,23 @@ func c19GraphTieCase(c *Ctx, cs *c19Case, plain *syntax.Ast, base *c19Compiled) 
 				Impl: enc, Model: rep, Broken: "correspondence C19 (program encoding)"})
 		}
 	}
+	// the fuel of the graph model is adequate for this program (hypothesis of graph_fuel_adequate),
+	// and, without disabled modifiers, deepGraphD is deepGraph (hypothesis of deepGraphD_embeds_deepGraph)
+	if c.Drv != nil && !c19HasMapCall(base.Ast) {
+		rep := c.Drv.Ask("C19.gfuel", c19Encode(plain), c19EncodeTypes(base.Ast))
+		f := map[string]string{}
+		for _, kv := range strings.Fields(rep) {
+			if j := strings.IndexByte(kv, '='); j > 0 {
+				f[kv[:j]] = kv[j+1:]
+			}
+		}
+		r.hist("graph-fuel:ok=" + f["fuel_ok"] + ":no-disabled-mods=" + f["nodis"])
+		if f["fuel_ok"] != "true" || f["agrees"] != "true" {
+			r.violate(Violation{Kind: "correspondence", Key: "C19:graph-fuel-inadequate",
+				What:  "the explicit-exhaustion run of the graph model does not succeed at graphFuel (or disagrees with deepGraph): " + rep,
+				Input: c19Replay{Program: cs.Src, Note: "found in " + cs.Name}, Broken: "hypothesis of Props.C19.graph_fuel_adequate"})
+		}
+	}
 	verdict, real, model := c19GraphTie(c, plain, base.Ast, base.Graph)
 	switch {
 	case verdict == "equal-with-disabled":
@@ -552,6 +570,9 @@ func c19GraphTieCase(c *Ctx, cs *c19Case, plain *syntax.Ast, base *c19Compiled) 
 		}
 	case strings.HasPrefix(verdict, "skip:"):
 		r.hist("graph-tie:" + c19FirstLine(verdict))
+		if verdict == "skip:map-call" {
+			c19MapCallTie(c, cs)
+		}
 	default:
 		r.hist("graph-tie:DIFFERENT")
 		c19GraphReported++
@@ -742,3 +763,42 @@ func c19GraphTheorems(c *Ctx, cs *c19Case, plain *syntax.Ast, base *c19Compiled)
 		}
 	}
 }
+
+// c19MapCallTie: programs with map calls / split are outside `deepGraph`.  Their resolved call graph is
+// the subject of C01's static-phase model (lean/Martian/ResolverStaticTree.lean: split / merge nodes,
+// fork roots, `mkMerge` cancellation), which has its own encoder and comparator (harness/c01_static.go);
+// the same comparison is made here on the C19 program stream, so that these programs are tied to the
+// real MakeCallGraph through that model.
+func c19MapCallTie(c *Ctx, cs *c19Case) {
+	r := c.Res
+	prog, cg, err := c01CompileStatic(cs.Src)
+	if err != nil {
+		r.hist("graph-tie:map-call:static-model:not-encodable")
+		if os.Getenv("C19_DEBUG") != "" {
+			r.note("map-call program not encodable for C01.static: %v", err)
+		}
+		return
+	}
+	rep := c01ParseStatic(c.Drv.Ask("C01.static", prog, "-"))
+	switch {
+	case rep.skip:
+		r.hist("graph-tie:map-call:static-model:skip")
+	case rep.bad != "":
+		r.hist("graph-tie:map-call:static-model:bad-reply")
+	case rep.static == cg:
+		r.hist("graph-tie:map-call:static-model:equal")
+		r.count("graph-mapcall\x00"+cs.Src, true)
+	default:
+		r.hist("graph-tie:map-call:static-model:DIFFERENT")
+		if c19MapCallReported == 0 {
+			c19MapCallReported++
+			r.violate(Violation{Kind: "correspondence", Key: "C19:mapcall-static-model-differs",
+				What:  "on a program with map calls the static-phase model of C01 (staticProgramT) differs from Ast.MakeCallGraph: " + c01StaticDiff(rep.static, cg),
+				Input: c19Replay{Program: cs.Src, Note: "found in " + cs.Name},
+				Impl:  cg, Model: rep.static,
+				Broken: "correspondence Martian.staticProgramT ~ syntax.Ast.MakeCallGraph (C19 program stream)"})
+		}
+	}
+}
+
+var c19MapCallReported = 0
